@@ -28,8 +28,9 @@ RULE = ('(1) operation sequences (30-45 ops) on a real ss.People: grow sizes aro
         'plain-function interventions and connectors, and Deaths / Births / requesters on their own timeline (finer / coarser dt, later start, earlier stop); '
         'for every sim the real loop plan is compared with the regenerated plan table instantiated by the model; '
         'distinct = distinct canonical op sequence; non-trivial = at least one reallocation-free grow, one reallocating grow and one removal')
-TRUSTED = ['np.isin / np.unique as used by remove_dead; the monkey-patched recorders only observe (they call the original method first)']
-ASSUMPTIONS = ['modules change life status only through People.request_death / step_die (direct writes to alive/ti_dead by a module are outside the model; the sim replay compares alive/ti_dead after every call and would flag them)']
+TRUSTED = ['np.isin / np.unique as used by remove_dead; the monkey-patched recorders only observe (they call the original method first)',
+           'harness/extractors/c10_plan.py: AST scan for writes to people.ti_dead / people.alive (setattr / helper-mediated writes are not seen); guards of the loop plan are evaluated with eval() on the real sim']
+ASSUMPTIONS = ['user-defined modules change life status only through People.request_death / step_die (for the built-in modules this is the regenerated fact C10_life_status_single_writer; direct writes to alive/ti_dead by a module are outside the model; the sim replay compares alive/ti_dead after every call and the stamp oracles read the real arrays)']
 
 
 class HarnessError(Exception):
